@@ -222,7 +222,10 @@ func insertMethod(class, super slip.Class, method *slip.Method, combo *slip.Comb
 			pos++
 		}
 	}
-	m.Combinations = append(append(m.Combinations[:pos], combo), m.Combinations[pos:]...)
+	combos := make([]*slip.Combination, 0, len(m.Combinations)+1)
+	combos = append(combos, m.Combinations[:pos]...)
+	combos = append(combos, combo)
+	m.Combinations = append(combos, m.Combinations[pos:]...)
 }
 
 // DefCallerMethod defines a method for a caller.
